@@ -12,3 +12,12 @@ func zstdBomb() []byte {
 	}
 	return enc.EncodeAll(make([]byte, 64<<20), nil)
 }
+
+// a well-formed zstd frame around arbitrary content
+func zstdFrame(content []byte) []byte {
+	enc, err := zstd.NewWriter(nil)
+	if err != nil {
+		return nil
+	}
+	return enc.EncodeAll(content, nil)
+}
